@@ -10,7 +10,7 @@ set -u
 export VERIF_OUT=${VERIF_OUT:-/tmp/mutant-eval-out}
 INREPO=0
 if [ "$1" = "--in-repo" ]; then INREPO=1; shift; fi
-DIR=$1; shift
+DIR=$(cd "$1" && pwd); shift
 cd /verif
 if [ -f "$DIR/demo.cpp" ]; then
   g++ -std=c++20 -O1 -g -fsanitize=address,undefined -w -I/repo/source/include "$DIR/demo.cpp" -o /tmp/demo_orig.$$ 2>/dev/null
